@@ -145,24 +145,41 @@ S0_T = S0_Q + [("N", "N", "C"), ("C",)]
 S1_T = S1_Q + [("N", "N", "C")]
 
 
+# explored with PB 2 as well in the thorough tier (a PB-2 search of one harness is ~35 000 executions)
+DEEP = [("switch_latest", ("N", "C"), ("C",), "C"), ("switch_latest", ("N", "C"), ("N", "C"), "C"), ("switch_latest", ("C",), ("N", "C"), "C"),
+        ("switch_latest", ("N", "E"), ("N", "C"), "C"), ("switch_latest", ("N", "C"), ("N", "E"), "C"), ("switch_latest", ("N", "C"), ("N", "C"), "E")]
+
+
 def harnesses(tier):
     if tier == "quick":
         combos = [("switch_latest", a, b, t) for a in S0_Q for b in S1_Q for t in ("C", "E") if not (t == "E" and b != ("N", "C"))]
         combos.append(("switch_map", ("N", "C"), ("N", "C"), "C"))
-    else:
-        combos = [(f, a, b, t) for f in ("switch_latest", "switch_map") for a in S0_T for b in S1_T for t in ("C", "E")]
-    return [H(*c) for c in combos]
+        hs = [H(*c) for c in combos]
+        for c in DEEP[:2]:
+            # PB 2, switching only at line boundaries of _switchlatest.py (and where threads block/start/end): cheap enough for every run
+            h = H(*c)
+            h.pb, h.lines_only = 2, True
+            h.name += "|PB2-lines-only"
+            hs.append(h)
+        return hs
+    hs = [H(f, a, b, t) for f in ("switch_latest", "switch_map") for a in S0_T for b in S1_T for t in ("C", "E")]
+    for c in DEEP:
+        h = H(*c)
+        h.pb = 2
+        h.name += "|PB2"
+        hs.append(h)
+    return hs
 
 
-def PB_of(tier):
-    return 1 if tier == "quick" else 2
+def PB_of(tier, h=None):
+    return getattr(h, "pb", 1)
 
 
 def shard(part, shard_i, nshards, tier, seed, deadline):
     ilv.install()
     for i, h in enumerate(harnesses(tier)):
         if (i + seed) % nshards == shard_i:
-            ilvrun.explore_all(part, [h], 0, 1, PB_of(tier), 0, deadline, horizon=WAIT + 3.0)
+            ilvrun.explore_all(part, [h], 0, 1, PB_of(tier, h), 0, deadline, horizon=WAIT + 3.0)
 
 
 def run_part(ctx):
@@ -170,7 +187,7 @@ def run_part(ctx):
     hs = harnesses(ctx.tier)
     ctx.sharded(shard, nshards=len(hs), deadline=ctx.sub_deadline(0.5))
     ex = ctx.total.counters.get("executions", 0) - before
-    ctx.cov["e3_threads"] = {"schedules_explored": ex, "schedule_points": ctx.total.counters.get("schedule_points", 0), "PB": PB_of(ctx.tier), "harnesses": len(hs)}
+    ctx.cov["e3_threads"] = {"schedules_explored": ex, "schedule_points": ctx.total.counters.get("schedule_points", 0), "PB": "1" if ctx.tier == "quick" else "1 for every harness, 2 for the DEEP list", "harnesses": len(hs)}
     ctx.assumptions = list(ctx.assumptions) + [
         "E3 part: outer and two inners each emit serially from their own controlled thread; preemption at sync operations and line "
         "boundaries of _switchlatest.py; emissions in flight across the switch are not judged (only calls that started after the hand-over returned)"
